@@ -6,6 +6,7 @@ mod corpus;
 mod qgen;
 mod corrupt;
 mod crash;
+mod extras;
 mod faults;
 mod ffi;
 mod frontends;
@@ -33,6 +34,7 @@ fn main() {
     "faults" => faults::main(&args),
     "conc" => conc::main(&args),
     "search" => search::main(&args),
+    "extras" => extras::main(&args),
     "http" => http::main(&args),
     "ffi" => ffi::main(&args),
     "frontends" => frontends::main(&args),
